@@ -53,6 +53,7 @@ package parser
 
 import (
 	"context"
+	stderrors "errors"
 	"fmt"
 	"strings"
 	"sync"
@@ -584,6 +585,12 @@ func (p *Parser) ParseContext(ctx context.Context, tokens []token.Token) (*ast.A
 		if err != nil {
 			// Clean up the AST on error
 			ast.ReleaseAST(result)
+			// Cancellation noticed inside a nested construct is re-wrapped into a
+			// syntax error on the way up, which drops the context's error from the
+			// chain; report it as the cancellation it is.
+			if ctxErr := ctx.Err(); ctxErr != nil && !stderrors.Is(err, ctxErr) {
+				return nil, fmt.Errorf("parsing cancelled: %w", ctxErr)
+			}
 			return nil, err
 		}
 		result.Statements = append(result.Statements, stmt)
